@@ -121,6 +121,15 @@ Sites == <<
   S("dtls_client_hello_cipher", "parse_dtls_message_handshake", NoArgs, <<1, 0, 0, 44, 0, 0, 0, 0, 0, 0, 0, 44, 254, 253>> \o R32 \o <<0, 0, 0, 4, 0, 47>>, 2,
     <<1, 0>>, "body.ciphers.1"),
   S("dtls_record_version_in_record", "parse_dtls_plaintext_record", NoArgs, <<21>>, 2, <<0, 0, 0, 0, 0, 0, 0, 0, 0, 2, 1, 0>>, "hdr.ver"),
+  (* a code point alone in its list, or among neighbours that are all unregistered: it is not accepted "because" a registered one is present *)
+  HsS("client_hello_compression_alone", 1, ChPre \o <<0, 2, 0, 47, 1>>, 1, <<>>, "m.comp.0"),
+  HsS("client_hello_compression_among_unregistered", 1, ChPre \o <<0, 2, 0, 47, 3, 64, 255>>, 1, <<>>, "m.comp.2"),
+  HsS("client_hello_cipher_alone", 1, ChPre \o <<0, 2>>, 2, <<1, 0>>, "m.ciphers.0"),
+  S("dtls_client_hello_compression_alone", "parse_dtls_message_handshake", NoArgs, <<1, 0, 0, 42, 0, 0, 0, 0, 0, 0, 0, 42, 254, 253>> \o R32 \o <<0, 0, 0, 2, 0, 47, 1>>, 1, <<>>, "body.comp.0"),
+  (* every alert of a DTLS record, not only the first *)
+  S("dtls_alert_level_second", "parse_dtls_plaintext_record", NoArgs, <<21, 254, 253, 0, 0, 0, 0, 0, 0, 0, 1, 0, 4, 1, 0>>, 1, <<40>>, "msgs.1.sev"),
+  S("dtls_alert_description_third", "parse_dtls_plaintext_record", NoArgs, <<21, 254, 253, 0, 1, 0, 0, 0, 0, 0, 2, 0, 6, 1, 0, 2, 40, 1>>, 1, <<>>, "msgs.2.code"),
+  S("dtls_alert_level_with_header", "parse_dtls_record_with_header", [NoArgs EXCEPT !.ct = 21, !.ver = 65277, !.len = 4], <<1, 90>>, 1, <<0>>, "1.sev"),
   (* the named group through every structure that carries it (all 65536 groups are one opaque number, elliptic or not) *)
   S("named_group_ecdh_params", "parse_ecdh_params", NoArgs, <<3>>, 2, <<1, 4>>, "params.content.g"),
   S("named_group_ecdh_params_long_point", "parse_ecdh_params", NoArgs, <<3>>, 2, <<65>> \o Fill(3, 65) \o <<4, 3>>, "params.content.g"),
@@ -168,6 +177,10 @@ Acc(site, v) ==
     [] site \in {"draft18_cipher", "server_hello_cipher"} -> v.m.cipher
     [] site = "client_hello_cipher" -> v.m.ciphers[2]
     [] site = "client_hello_compression" -> v.m.comp[2]
+    [] site = "client_hello_compression_alone" -> v.m.comp[1] [] site = "client_hello_compression_among_unregistered" -> v.m.comp[3]
+    [] site = "client_hello_cipher_alone" -> v.m.ciphers[1] [] site = "dtls_client_hello_compression_alone" -> v.body.comp[1]
+    [] site = "dtls_alert_level_second" -> v.msgs[2].sev [] site = "dtls_alert_description_third" -> v.msgs[3].code
+    [] site = "dtls_alert_level_with_header" -> v[2].sev
     [] site \in {"server_hello_compression", "server_hello_compression_tls13_cipher", "server_hello_compression_unlisted_cipher"} -> v.m.comp
     [] site = "server_hello_cipher_compression_255" -> v.m.cipher
     [] site = "client_hello_cipher_after_tls13_cipher" -> v.m.ciphers[2]
